@@ -37,6 +37,8 @@ DECLARED = {
     "nTrk": {"return_type": "int"},
     "charge": {"return_type": "int"},
     "isGood": {"return_type": "bool"},
+    "fpt": {"return_type": "float"},
+    "fm": {"return_type": "float"},
     "cvals": {"return_type_element": "double"},
     "ivals": {"return_type_element": "int"},
 }
@@ -235,6 +237,12 @@ class QGen:
             self.declare(etype, m)
             self.shape.append("oint")
             return f"{o}.{m}()", "int"
+        if r.random() < 0.10:
+            # a single-precision value (declared float): sums over it are accumulated in a wider type
+            m = r.choice(["fpt", "fm"])
+            self.declare(etype, m)
+            self.shape.append("ofloat")
+            return f"{o}.{m}()", "double"
         if k < 0.55 or depth <= 0:
             self.shape.append("odbl")
             return f"{o}.{r.choice(DOUBLE_METHODS)}()", "double"
